@@ -67,7 +67,8 @@ def enumerate_file(rel):
         old = lines[line - 1][col:end_col]
         if old == new:
             return
-        muts.append({"file": rel, "line": line, "col": col, "end_col": end_col, "old": old, "new": new, "op": op})
+        muts.append({"file": rel, "line": line, "col": col, "end_col": end_col, "old": old, "new": new, "op": op,
+                     "source_line": lines[line - 1].strip()})
 
     # parents, to skip annotations / docstrings / default arguments of signatures
     skip = set()
@@ -159,9 +160,18 @@ def enumerate_file(rel):
 def apply_mutant(root: Path, m):
     p = root / m["file"]
     lines = (REPO / m["file"]).read_text().split("\n")
-    ln = lines[m["line"] - 1]
-    assert ln[m["col"]:m["end_col"]] == m["old"], (m, ln)
-    lines[m["line"] - 1] = ln[:m["col"]] + m["new"] + ln[m["end_col"]:]
+    # the mutant was enumerated on an earlier revision of the file: accept a shift of a few lines (a repair committed since)
+    at = None
+    for delta in (0, 1, -1, 2, -2, 3, -3, 4, -4, 5, -5, 6, -6, 8, -8):
+        k = m["line"] - 1 + delta
+        if 0 <= k < len(lines) and lines[k][m["col"]:m["end_col"]] == m["old"] and \
+                (delta == 0 or lines[k].strip() == m.get("source_line", lines[k].strip())):
+            at = k
+            break
+    if at is None:
+        raise LookupError(f"mutation site not found any more: {m['file']}:{m['line']}")
+    ln = lines[at]
+    lines[at] = ln[:m["col"]] + m["new"] + ln[m["end_col"]:]
     p.write_text("\n".join(lines))
 
 
@@ -322,9 +332,14 @@ def phase_checks_all(jobs):
         return list(m["properties"])
 
     def one(root, k):
-        m = allm[int(k)]
+        m = dict(allm[int(k)], source_line=res[k]["source_line"])
         r = dict(res[k])
-        apply_mutant(root, m)
+        try:
+            apply_mutant(root, m)
+        except LookupError as e:
+            r["all_checks_run"] = True
+            r["note"] = str(e)
+            return k, r
         try:
             r["checks"] = []
             for c in checks_for(m):
